@@ -135,6 +135,17 @@ func NewStructureType(s *specification.Schema, components Componenter, cfg Confi
 	return stype, imports, nil
 }
 
+// keepAdditionalProperties takes over the additionalProperties of an allOf
+// member that is declared in place (the first one that has any): its members
+// are merged into this structure, so the map for what they leave over lives
+// here as well.
+func (s *StructureType) keepAdditionalProperties(member StructureType) {
+	if s.AdditionalProperties == nil && member.AdditionalProperties != nil {
+		s.AdditionalProperties = member.AdditionalProperties
+		s.AdditionalPropertiesToBaseTypeFn = member.AdditionalPropertiesToBaseTypeFn
+	}
+}
+
 var _ InternalSchemaType = StructureType{}
 
 func (s StructureType) Kind() SchemaKind { return SchemaKindObject }
